@@ -34,16 +34,23 @@ def tb_prop(classes, extra_tb=None):
     return {"layers": ["tb"], "classes": classes + ["CRASH."], "modes": tb_modes(), "rule": TB_RULE,
             "trusted_base": TB_COMMON + (extra_tb or []), "assumptions": TB_ASSUME, "extra_obligations": []}
 
+def win_modes(nq=60, nt=6000, ns=1200):
+    """table histories + lock-free calls placed at a chosen seat-manager call inside openGame (conc mode -windows, hook WrapSeatManager)"""
+    m = tb_modes()
+    def c(n, w):
+        return {"mode": "conc", "args": ["-n", 0, "-actions", 0, "-sm", 0, "-windows", n] + (["-workers", 16] if w else []), "replayable": False}
+    return {"quick": m["quick"] + [c(nq, False)], "thorough": m["thorough"] + [c(nt, True)], "search": m["search"] + [c(ns, True)]}
+
 PROPS = {
     "C01": {**tb_prop(["C01."]), "layers": ["tb", "cc"],
-            "modes": {"quick": tb_modes()["quick"] + [{"mode": "conc", "args": ["-n", 0, "-actions", 0, "-sm", 0, "-topups", 6], "replayable": False}],
-                      "thorough": tb_modes()["thorough"] + [{"mode": "conc", "args": ["-n", 0, "-actions", 0, "-sm", 0, "-topups", 200, "-workers", 16], "replayable": False}],
-                      "search": tb_modes()["search"] + [{"mode": "conc", "args": ["-n", 0, "-actions", 0, "-sm", 0, "-topups", 40, "-workers", 16], "replayable": False}]}},
-    "C02": tb_prop(["C02."]),
-    "C03": {**tb_prop(["C03."]), "layers": ["tb", "sm"],
-            "modes": {"quick": tb_modes()["quick"] + [{"mode": "sm", "args": ["-n", 2000]}],
-                      "thorough": tb_modes()["thorough"] + [{"mode": "sm", "args": ["-n", 100000, "-enum", 4, "-enumseats", 3]}],
-                      "search": tb_modes()["search"] + [{"mode": "sm", "args": ["-n", 40000]}]}},
+            "modes": {"quick": tb_modes()["quick"] + [{"mode": "conc", "args": ["-n", 0, "-actions", 0, "-sm", 0, "-topups", 6, "-windows", 60], "replayable": False}],
+                      "thorough": tb_modes()["thorough"] + [{"mode": "conc", "args": ["-n", 0, "-actions", 0, "-sm", 0, "-topups", 200, "-windows", 6000, "-workers", 16], "replayable": False}],
+                      "search": tb_modes()["search"] + [{"mode": "conc", "args": ["-n", 0, "-actions", 0, "-sm", 0, "-topups", 40, "-windows", 1200, "-workers", 16], "replayable": False}]}},
+    "C02": {**tb_prop(["C02."]), "layers": ["tb", "cc"], "modes": win_modes()},
+    "C03": {**tb_prop(["C03."]), "layers": ["tb", "sm", "cc"],
+            "modes": {"quick": win_modes()["quick"] + [{"mode": "sm", "args": ["-n", 2000]}],
+                      "thorough": win_modes()["thorough"] + [{"mode": "sm", "args": ["-n", 100000, "-enum", 4, "-enumseats", 3]}],
+                      "search": win_modes()["search"] + [{"mode": "sm", "args": ["-n", 40000]}]}},
     "C05": tb_prop(["C05."]),
     "C06": tb_prop(["C06."]),
     "C07": tb_prop(["C07."]),
@@ -51,7 +58,7 @@ PROPS = {
             "modes": {"quick": tb_modes()["quick"] + [{"mode": "sm", "args": ["-n", 2000]}],
                       "thorough": tb_modes()["thorough"] + [{"mode": "sm", "args": ["-n", 100000, "-enum", 4, "-enumseats", 3]}],
                       "search": tb_modes()["search"] + [{"mode": "sm", "args": ["-n", 40000]}]}},
-    "C12": tb_prop(["C12."]),
+    "C12": {**tb_prop(["C12."]), "layers": ["tb", "cc"], "modes": win_modes()},
     "C04": {
         "layers": ["sm"],
         "classes": ["C04."],
